@@ -304,8 +304,7 @@ struct Value {
             return data;
         default:
             // ascii representation
-            data.resize(str.length());
-            memcpy(data.data(), str.data(), str.length());
+            data.assign(str.begin(), str.end());
             return data;
         }
     }
